@@ -22,7 +22,7 @@ RULE = ('cases are (error text, monitored file list, request): real tracebacks f
 ASSUMPTIONS = ['lone surrogates are excluded (the text is always bytes.decode("utf8") of a child\'s stderr)',
                'an existing file below /clastic_assets/ may be served instead of the page',
                'the verbatim clause applies to str input; for None / bytes / int only construction and a 200 HTML page are demanded']
-REQUIRED_REACH = ['standard-traceback-rendered', 'syntaxerror-rendered', 'non-text-rendered', 'canary-as-text', 'files:none',
+REQUIRED_REACH = ['served-from-another-thread', 'standard-traceback-rendered', 'syntaxerror-rendered', 'non-text-rendered', 'canary-as-text', 'files:none',
                   'files:long', 'files:hostile', 'path:asset-prefix', 'method:POST', 'type-and-message-named', 'text:empty',
                   'text:template-syntax', 'text:control-chars']
 NSHARDS = 16
@@ -154,7 +154,8 @@ def gen_case(rng, n):
     path = rng.pick(['/', '/', '/anything', '/deep/er/path/', '/clastic_assets/', '/clastic_assets/nothing.css', '/clastic_assets/common.css',
                      '/<vx7q11>', '/%7Btb_str%7D', '/a//b', '/favicon.ico', '/clastic_assets/../flaw.py', '/clastic_assets//etc/hosts',
                      '/clastic_assets/js/../../x', '/clastic_assets/..', '/clastic_assets/%2e%2e/x'])
-    method = rng.pick(['GET', 'GET', 'GET', 'POST', 'HEAD', 'PUT', 'DELETE'])
+    # every method: the registered ones and extension tokens (WebDAV, cache purges, anything a client makes up)
+    method = rng.pick(['GET', 'GET', 'GET', 'POST', 'HEAD', 'PUT', 'DELETE', 'OPTIONS', 'PATCH', 'PROPFIND', 'PURGE', 'FOO', 'M-SEARCH', 'get'])
     return {'kind': kind, 'text': text, 'files_kind': fk, 'files': files, 'path': path, 'method': method, 'expect': exp, 'n': n}
 
 
@@ -210,7 +211,19 @@ def judge(sh, case, record=True):
         sh.hit('method:POST')
     if case['path'].startswith('/clastic_assets'):
         sh.hit('path:asset-prefix')
-    ex = probe.request(app, case['method'], case['path'], body=b'x=1' if case['method'] in ('POST', 'PUT') else b'')
+    def ask():
+        return probe.request(app, case['method'], case['path'], body=b'x=1' if case['method'] in ('POST', 'PUT') else b'')
+    if case.get('n', 0) % 3 == 0:
+        # the development server builds the failsafe application in its main thread and serves it from another one
+        import threading
+        box = []
+        t = threading.Thread(target=lambda: box.append(ask()))
+        t.start()
+        t.join()
+        ex = box[0]
+        sh.hit('served-from-another-thread')
+    else:
+        ex = ask()
     if ex.exc is not None:
         bad('exception-escaped', '%s escaped' % probe.safe_repr(ex.exc)[:300])
         return
